@@ -77,6 +77,11 @@ def run(ctx):
         def on(ans, case=case, lines=lines, err=err):
             if ans is None:
                 return
+            if ans[0] == "err" and ans[1] == "ZeroDivisionError":
+                # a table whose fractions are all zero cannot be normalised or scaled: the property does not say what happens then
+                # (the unchanged code raises ZeroDivisionError; a table of zeros would be as good) - nothing is compared
+                res.count("all_zero_table_normalised_or_scaled")
+                return
             if ans[0] == "err":
                 want_err = {"RuntimeError": "RuntimeError", "ZeroDivisionError": "ZeroDivisionError", "DecayNotFound": "DecayNotFound",
                             "UnknownPdgName": "MatchingIDNotFound"}.get(ans[1], ans[1])
@@ -144,6 +149,9 @@ def run(ctx):
         if rng.random() < 0.1:
             for l in lines:
                 l[0] = "0"     # all-zero table: division by zero when normalising or scaling
+        elif rng.random() < 0.12:
+            for l in lines:
+                l[0] = rng.choice(["1.1e-10", "5e-11", "4e-11", "1e-12", "2.5e-13", "1e-15"])     # a block of rare decays only: tiny, not zero
         doc = [["decay", mother, lines]]
         if defs_:
             doc = (defs_ + doc) if rng.random() < 0.5 else (doc + defs_)
